@@ -213,3 +213,23 @@ func itoa(i int) string {
 	}
 	return string(b)
 }
+
+// WhoMayStoreGlobal checks stores to a package-level variable.
+func (c *Ctx) WhoMayStoreGlobal(ix *Index, rule, global string, allowed []string, why string) int {
+	n := 0
+	writers := map[string]int{}
+	for _, s := range ix.GlobalStore[global] {
+		n++
+		writers[fname(s.Fn)]++
+		if !allowedFn(s.Fn, allowed) {
+			c.Fail(rule, global+"<-"+fname(s.Fn), c.P.InstrPos(s.In), "store to "+global+" outside its allowed writers {"+strings.Join(allowed, ", ")+"}: "+why)
+		}
+	}
+	var cs []string
+	for k, v := range writers {
+		cs = append(cs, k+"×"+itoa(v))
+	}
+	sort.Strings(cs)
+	c.OK(rule, global, "", "writers: "+strings.Join(cs, ", ")+" ⊆ allowed")
+	return n
+}
